@@ -72,7 +72,7 @@ def _isnan(v):
     return v != v
 
 
-@harness('BacktestDataHandler.latest_prices', props=['C06', 'C07', 'C05'], layer='L3',
+@harness('BacktestDataHandler.latest_prices', props=['C06'], also=['C05', 'C07', 'C10', 'C11', 'C16', 'C02'], layer='L3',
          functions=['BacktestDataHandler.__init__', 'BacktestDataHandler.get_asset_latest_bid_price', 'BacktestDataHandler.get_asset_latest_ask_price',
                     'BacktestDataHandler.get_asset_latest_bid_ask_price', 'BacktestDataHandler.get_asset_latest_mid_price'])
 def dh_latest(c):
@@ -93,16 +93,16 @@ def dh_latest(c):
         ask = dh.get_asset_latest_ask_price(dt, a)
         wa = _first_valid(c, n, SRC_ASK, SRC_ANAN, dt, a)
         if wa is None:
-            c.ob(tag + 'ask-is-nan-when-no-source-answers', _isnan(ask))
+            c.ob(tag + 'ask-is-nan-when-no-source-answers', _isnan(ask), props=['C06', 'C10', 'C11'])
         else:
-            c.ob(tag + 'ask-is-first-non-nan-source-answer', AND(NOT(_isnan(ask)), EQ(ask, wa)))
+            c.ob(tag + 'ask-is-first-non-nan-source-answer', AND(NOT(_isnan(ask)), EQ(ask, wa)), props=['C06', 'C10', 'C11'])
         ba = dh.get_asset_latest_bid_ask_price(dt, a)
         if want is None:
-            c.ob(tag + 'bid-ask-pair-is-nan-nan', AND(_isnan(ba[0]), _isnan(ba[1])))
+            c.ob(tag + 'bid-ask-pair-is-nan-nan', AND(_isnan(ba[0]), _isnan(ba[1])), props=['C06', 'C05'])
         else:
-            c.ob(tag + 'bid-ask-pair-is-bid-bid', AND(EQ(ba[0], want), EQ(ba[1], want)))
+            c.ob(tag + 'bid-ask-pair-is-bid-bid', AND(EQ(ba[0], want), EQ(ba[1], want)), props=['C06', 'C05'])
             mid = dh.get_asset_latest_mid_price(dt, a)
-            c.ob(tag + 'mid-is-half-bid-plus-ask', EQ(mid, (want + want) / 2.0))
+            c.ob(tag + 'mid-is-half-bid-plus-ask', EQ(mid, (want + want) / 2.0), props=['C06', 'C02', 'C16'])
         c.ob(tag + 'sources-queried-at-dt-for-that-asset', AND(*[AND(EQ(q[2], dt), EQ(q[3], a)) for q in log]), props=['C07', 'C06'])
 
 
